@@ -3,6 +3,7 @@
 the derive proc-macro and the deps directory."""
 import json, os, sys
 rlib = derive = None
+extern = {}
 for line in sys.stdin:
     line = line.strip()
     if not line.startswith("{"):
@@ -19,8 +20,16 @@ for line in sys.stdin:
             rlib = f
         if name == "gc_arena_derive" and f.endswith(".so"):
             derive = f
+        if name in ("hashbrown", "indexmap", "slotmap", "smallvec", "enum_map") and f.endswith(".rlib"):
+            pid = m.get("package_id", "")
+            # the versions gc-arena itself depends on
+            want = {"hashbrown": "0.17", "indexmap": "2.", "slotmap": "1.", "smallvec": "1.", "enum_map": "2."}[name]
+            ver = pid.split("@")[-1] if "@" in pid else pid.split("#")[-1]
+            if ver.startswith(want):
+                extern[name] = f
 if not rlib or not derive:
     sys.exit(1)
 print(f'export GCV_RLIB="{rlib}"')
 print(f'export GCV_DERIVE="{derive}"')
 print(f'export GCV_DEPS="{os.path.dirname(rlib)}"')
+print('export GCV_EXTERNS="' + " ".join(f"{k}={v}" for k, v in sorted(extern.items())) + '"')
